@@ -331,3 +331,102 @@ def side_loading(p1: str, n1: str, p2: str, n2: str, p3: str, n3: str, p4: str, 
                 if tg is not None and reachable(pk, nm, []) and not col.members[pk].members[nm].resolved:
                     return fail(f"{pk}.{nm} -> {'.'.join(tg)}: its whole chain is loaded, yet it is left unresolved after resolve_aliases(external=True)")
     return ok
+
+
+# ================================================================================ dereferencing aliases around an already-resolved cycle
+class _Fuel(Exception):
+    pass
+
+
+@obligation(
+    pid="C06", name="resolved_cycle_access",
+    pre=lambda cyc, tail, tail2: 2 <= cyc <= 3 and 0 <= tail <= 3 and 0 <= tail2 <= 4,
+    timeout=tiered(120, 300),
+    drives=[prop(Alias, "final_target"), prop(Alias, "target"), Alias.resolve_target],
+    bounds={"cycle": "2 or 3 aliases whose targets were assigned as objects (already resolved links, as the API allows)", "tails": "t -> a cycle member or the function f; u -> t, a cycle member or f"},
+    value_symbolic=["cycle length", "what the two outside aliases point to"], stubs=STUBS + ["a call counter on Alias.path: a dereference that needs more than 2000 path lookups is a non-terminating access"],
+    must_cover=["cyclic", "resolved"],
+    grid=lambda seed: [dict(cyc=c, tail=t, tail2=u) for c in (2, 3) for t in (0, 3) for u in (0, 4)],
+)
+def resolved_cycle_access(cyc: int, tail: int, tail2: int) -> bool:
+    """An alias that leads INTO a cycle of resolved links without being on it reports CyclicAliasError on every access - it never loops."""
+    from vlib.stubs import realize_value
+
+    cyc, tail, tail2 = realize_value(cyc), realize_value(tail), realize_value(tail2)
+    from harness.C08_json import _native
+
+    def run():
+        col = ModulesCollection()
+        m = Module("m")
+        col.set_member("m", m)
+        f = Function("f", lineno=1, endlineno=2)
+        m.set_member("f", f)
+        ring = [Alias(f"a{i}", f"m.a{(i + 1) % cyc}", lineno=3 + i, endlineno=3 + i) for i in range(cyc)]
+        for a in ring:
+            m.set_member(a.name, a)
+        calls = [0]
+        orig = Alias.__dict__["path"]
+
+        def counted(self):
+            calls[0] += 1
+            if calls[0] > 2000:
+                raise _Fuel
+            return orig.fget(self)
+
+        Alias.path = property(counted)  # installed before the links are made: the target setter dereferences too
+
+        def link(al, tgt):
+            # links created as already resolved; the setter may itself report the cycle it closes (the link is stored nevertheless)
+            try:
+                al.target = tgt
+            except (CyclicAliasError, AliasResolutionError):
+                pass
+
+        try:
+            for i, a in enumerate(ring):
+                calls[0] = 0
+                link(a, ring[(i + 1) % cyc])
+        except _Fuel:
+            Alias.path = orig
+            return "assigning the target that closes the cycle does not terminate"
+        nodes = [*ring[:3], f] if cyc == 3 else [ring[0], ring[1], ring[0], f]
+        t = Alias("t", "m.f", lineno=10, endlineno=10)
+        m.set_member("t", t)
+        try:
+            calls[0] = 0
+            link(t, nodes[tail])
+            u = Alias("u", "m.f", lineno=11, endlineno=11)
+            m.set_member("u", u)
+            calls[0] = 0
+            link(u, [*nodes, t][tail2])
+        except _Fuel:
+            Alias.path = orig
+            return "pointing an alias at a member of a resolved cycle does not terminate"
+        try:
+            for al in (*ring, t, u):
+                on_cycle_or_into_it = al in ring or (al is t and tail < 3) or (al is u and (tail2 < 3 or (tail2 == 4 and tail < 3)))
+                for attr in ("final_target", "kind", "has_docstring", "is_function", "lineno"):
+                    calls[0] = 0
+                    try:
+                        getattr(al, attr)
+                        outcome = "value"
+                    except CyclicAliasError:
+                        outcome = "cyclic"
+                    except AliasResolutionError:
+                        outcome = "unresolvable"
+                    except _Fuel:
+                        return f"{al.path}.{attr}: does not terminate (alias leading into a cycle of resolved links)"
+                    except RecursionError:
+                        return f"{al.path}.{attr}: RecursionError"
+                    if attr == "final_target":
+                        if on_cycle_or_into_it and outcome != "cyclic":
+                            return f"{al.path}.final_target: {outcome}, expected CyclicAliasError"
+                        if not on_cycle_or_into_it and outcome != "value":
+                            return f"{al.path}.final_target: {outcome}, expected the function"
+                        cover("cyclic" if outcome == "cyclic" else "resolved")
+        finally:
+            Alias.path = orig
+        return None
+
+    err = _native(run)
+    return err is None or fail(err)
